@@ -5,36 +5,62 @@ export GOFLAGS=-mod=mod GOPROXY=off GOSUMDB=off GOTOOLCHAIN=local
 export VERIF_ROOT="$(cd "$(dirname "$0")" && pwd)"
 cd "$VERIF_ROOT" || exit 2
 id="$1"; tier="${2:-quick}"; path="$3"
-[ -n "$VERIF_TIER" ] && [ "$tier" != replay ] && [ -z "$2" ] && tier="$VERIF_TIER"
-mkdir -p bin evidence replays
-engine_of() {
+mkdir -p bin evidence/parts replays
+# parts of each property: engine[:part]
+parts_of() {
   case "$1" in
-    C01|C03|C04|C05|C07|C08|C09|C10|C11) echo pmc ;;
-    C02|C06|C17|C18|C20) echo enum ;;
-    C12|C13|C14|C15|C16|C19) echo vsched ;;
+    C01|C03|C04|C05|C07|C08|C09|C10|C11) echo "pmc" ;;
+    C02|C06|C17|C18|C20) echo "enum" ;;
+    C13|C14|C16) echo "vsched" ;;
+    C12) echo "vsched:runtime enum:api" ;;
+    C15) echo "enum:registry vsched:runtime" ;;
+    C19) echo "enum:formula vsched:races" ;;
     *) echo unknown ;;
   esac
 }
-eng=$(engine_of "$id")
-[ "$eng" = unknown ] && { echo "unknown property $id" >&2; exit 2; }
-bin="bin/$eng-$id-$tier-$$"
-trap 'rm -f "$bin"' EXIT
-build() { # $1 = package
-  go build -tags verif -o "$bin" "$1" 2> "bin/build-$id-$$.log" || { cat "bin/build-$id-$$.log" >&2; rm -f "bin/build-$id-$$.log"; echo "build of $1 against /repo failed" >&2; exit 2; }
-  rm -f "bin/build-$id-$$.log"
+parts=$(parts_of "$id")
+[ "$parts" = unknown ] && { echo "unknown property $id" >&2; exit 2; }
+build() { # $1 = package, $2 = output
+  go build -tags verif -o "$2" "$1" 2> "$2.log" || { cat "$2.log" >&2; rm -f "$2.log"; echo "build of $1 against /repo failed" >&2; exit 2; }
+  rm -f "$2.log"
 }
-case "$eng" in
-  pmc)
-    build ./cmd/pmc
-    if [ "$tier" = replay ]; then "$bin" -replay "$path"; rc=$?; [ $rc = 1 ] && exit 1; exit $rc; fi
-    "$bin" -prop "$id" -tier "$tier"; exit $?
-    ;;
-  enum)
-    build ./cmd/enum
-    if [ "$tier" = replay ]; then "$bin" -prop "$id" -replay "$path"; exit $?; fi
-    "$bin" -prop "$id" -tier "$tier"; exit $?
-    ;;
-  vsched)
-    exec ./vsched.sh "$id" "$tier" "$path"
-    ;;
-esac
+run_part() { # $1 = engine, $2 = part name ("" if single)
+  local eng="$1" part="$2" bin="bin/$1-$id-$tier-$$"
+  case "$eng" in
+    pmc)
+      build ./cmd/pmc "$bin"
+      if [ "$tier" = replay ]; then "$bin" -replay "$path"; else "$bin" -prop "$id" -tier "$tier"; fi ;;
+    enum)
+      build ./cmd/enum "$bin"
+      if [ "$tier" = replay ]; then "$bin" -prop "$id" -part "$part" -replay "$path"; else "$bin" -prop "$id" -part "$part" -tier "$tier"; fi ;;
+    vsched)
+      ./vsched.sh "$id" "$tier" "$path" ;;
+  esac
+  local rc=$?
+  rm -f "$bin"
+  return $rc
+}
+if [ "$tier" = replay ]; then
+  # the replay file names its engine
+  eng=$(grep -o '"engine": *"[a-z]*"' "$path" | head -1 | sed 's/.*"\([a-z]*\)"$/\1/')
+  [ -z "$eng" ] && eng=pmc
+  part=""
+  for p in $parts; do [ "${p%%:*}" = "$eng" ] && { part="${p#*:}"; [ "$part" = "$p" ] && part=""; }; done
+  run_part "$eng" "$part"; exit $?
+fi
+n=$(echo $parts | wc -w)
+worst=0
+rm -f evidence/parts/$id.*.json
+for p in $parts; do
+  eng="${p%%:*}"; part="${p#*:}"; [ "$part" = "$p" ] && part=""
+  if [ "$n" -gt 1 ]; then export VERIF_PART="$part"; else unset VERIF_PART; fi
+  run_part "$eng" "$part"; rc=$?
+  if [ $rc = 1 ]; then worst=1; elif [ $rc != 0 ] && [ $worst = 0 ]; then worst=2; fi
+done
+unset VERIF_PART
+if [ "$n" -gt 1 ]; then
+  build ./cmd/evmerge "bin/evmerge-$$"
+  "bin/evmerge-$$" "$VERIF_ROOT" "$id" || worst=2
+  rm -f "bin/evmerge-$$"
+fi
+exit $worst
